@@ -39,6 +39,7 @@ type Step struct {
 	Ans   int64   `json:"ans"`
 	Gets  []int64 `json:"gets"`
 	Print []Entry `json:"print"`
+	Panic string  `json:"panic,omitempty"` // the library panicked in this step: the history ends here
 }
 
 type Case struct {
@@ -154,8 +155,7 @@ func runOn[K any](c *Case, o ord.Ord[K], toK func(int64) K, parse func(string) (
 		return err
 	}
 	c.Levels = len(p0[0].F)
-	for i := range c.Steps {
-		st := &c.Steps[i]
+	step := func(st *Step) error {
 		src.next = st.Int63
 		before := src.calls
 		switch st.Op {
@@ -186,6 +186,29 @@ func runOn[K any](c *Case, o ord.Ord[K], toK func(int64) K, parse func(string) (
 					break
 				}
 			}
+		}
+		return nil
+	}
+	for i := range c.Steps {
+		st := &c.Steps[i]
+		var stepErr error
+		func() {
+			// a panic of the library is an observation (no ordinary map panics), not a failure of the harness
+			defer func() {
+				if r := recover(); r != nil {
+					st.Panic = fmt.Sprint(r)
+					st.Gets = []int64{}
+					st.Print = []Entry{}
+				}
+			}()
+			stepErr = step(st)
+		}()
+		if stepErr != nil {
+			return stepErr
+		}
+		if st.Panic != "" {
+			c.Steps = c.Steps[:i+1]
+			return nil
 		}
 	}
 	return nil
